@@ -78,6 +78,15 @@ def script_for(wd, n, ops, rng):
             L.append("w_add 0 %s T%s" % (shapes.hexs(k), ",".join(map(str, toks))))
         L.append("w_close 0")
     L.append("mkfile %s 6e6f742061207461626c65" % os.path.join(d, "g"))
+    # tables of the same names with other contents in a sibling directory: named by absolute path or through ".."
+    od = os.path.join(wd, "o%d" % n)
+    os.makedirs(od, exist_ok=True)
+    for name, ents in FILES.items():
+        p = os.path.join(od, name)
+        L.append("w_init 0 %s none default 1024 2 -1 0" % p)
+        for k, toks in ents:
+            L.append("w_add 0 %s T%s" % (shapes.hexs(k), ",".join(str(t + 100) for t in toks)))
+        L.append("w_close 0")
     setf = os.path.join(d, "set.txt")
     mtime = [5000]
     now = [1000]
@@ -86,7 +95,8 @@ def script_for(wd, n, ops, rng):
     def names_arg(ns):
         out = []
         for x in sorted(ns):
-            out.append(os.path.join(d, x) if rng.random() < 0.4 else x)      # absolute or relative to the setfile
+            u = rng.random()           # relative to the setfile; absolute in its directory; absolute elsewhere; relative through ".."
+            out.append(x if u < 0.45 else os.path.join(d, x) if u < 0.65 else os.path.join(od, x) if u < 0.88 else os.path.join("..", "o%d" % n, x))
         rng.shuffle(out)
         return " ".join(out)
 
